@@ -193,6 +193,70 @@ void all(int part, int nparts) {
       }
     }
   }
+  // ---- planar cross products: a unit vector along +-z, or exactly the zero direction for parallel / antiparallel / zero operands
+  {
+    long k = 0;
+    for (const auto& v : in.v2) {
+      if ((k++ % nparts) != part) continue;
+      const auto& w = in.v2[(k * 5 + 3) % in.v2.size()];
+      const PlanarDirection<T> a(v[0], v[1]);
+      for (int variant = 0; variant < 5; variant++) {
+        PlanarDirection<T> b;
+        if (variant == 0) b = PlanarDirection<T>(w[0], w[1]);
+        if (variant == 1) b = a;
+        if (variant == 2) b = PlanarDirection<T>(-v[0], -v[1]);
+        if (variant == 3) b = PlanarDirection<T>(v[0] * 3, v[1] * 3);
+        if (variant == 4) b = PlanarDirection<T>((T)0, -(T)0);
+        const Direction<T> c = a.Cross(b);
+        T cc[3], raw[3];
+        vf::comps(c, cc);
+        vf::comps(a.Value().Cross(b.Value()), raw);
+        c10::check_direction<T>("PlanarDirection.Cross(PlanarDirection)", cc, raw, 3);
+        vf::stat("path_comparisons");
+      }
+    }
+  }
+  // ---- numeric-type conversion of directions (construction and assignment): still a unit vector in the new type, same sense
+  {
+    long k = 0;
+    auto conv = [&](auto tag) {
+      using T2 = decltype(tag);
+      if constexpr (!std::is_same_v<T, T2>) {
+        long kk = 0;
+        for (const auto& v : in.v3) {
+          if ((kk++ % (nparts * 7)) != part) continue;
+          const Direction<T2> src((T2)v[0], (T2)v[1], (T2)v[2]);
+          const Direction<T> byctor(src);
+          Direction<T> byassign((T)0, (T)0, (T)1);
+          byassign = src;
+          T c1[3], c2[3];
+          T sv[3] = {(T)src.x(), (T)src.y(), (T)src.z()};
+          vf::comps(byctor, c1);
+          vf::comps(byassign, c2);
+          c10::check_direction<T>("Direction<T>(Direction<other T>)", c1, sv, 3);
+          c10::check_direction<T>("Direction<T> = Direction<other T>", c2, sv, 3);
+        }
+        kk = 0;
+        for (const auto& v : in.v2) {
+          if ((kk++ % (nparts * 3)) != part) continue;
+          const PlanarDirection<T2> src((T2)v[0], (T2)v[1]);
+          const PlanarDirection<T> byctor(src);
+          PlanarDirection<T> byassign((T)0, (T)1);
+          byassign = src;
+          T c1[2], c2[2];
+          T sv[2] = {(T)src.x(), (T)src.y()};
+          vf::comps(byctor, c1);
+          vf::comps(byassign, c2);
+          c10::check_direction<T>("PlanarDirection<T>(PlanarDirection<other T>)", c1, sv, 2);
+          c10::check_direction<T>("PlanarDirection<T> = PlanarDirection<other T>", c2, sv, 2);
+        }
+      }
+    };
+    conv(float{});
+    conv(double{});
+    conv((long double)0);
+    (void)k;
+  }
   // ---- zero vectors (both signs of zero) through every path
   if (part == 0) {
     for (T z : {(T)0, -(T)0}) {
